@@ -1878,11 +1878,15 @@ Qed.
 (* 14. the parse phase on the blocks of a guard IR                      *)
 (* ------------------------------------------------------------------ *)
 
-Lemma afterward_index_none : forall units k,
-    Forall (fun u => endswith [ch 58] (nth 0 u []) = false) units -> afterward_index units k = None.
+Definition head_no_colon (u : list str) : Prop := endswith [ch 58] (nth 0 u ([] : str)) = false.
+
+Lemma afterward_index_none : forall (units : list (list str)) k,
+    Forall head_no_colon units -> afterward_index units k = None.
 Proof.
   intros units. induction units as [|u r IH]; intros k H; [reflexivity|].
-  inversion H as [|x l Hx Hl]; subst. cbv beta in Hx. cbn [afterward_index]. Show. rewrite Hx. apply IH. exact Hl.
+  inversion H as [|x l Hx Hl]; subst. unfold head_no_colon in Hx. cbn [afterward_index].
+  destruct (endswith [ch 58] (nth 0 u [])) eqn:E; [exfalso; clear - Hx E; unfold str in *; congruence|].
+  apply IH. exact Hl.
 Qed.
 
 Lemma endswith_char_app : forall c a b, b <> [] -> endswith [c] (a ++ b) = endswith [c] b.
@@ -1924,4 +1928,384 @@ Proof.
       rewrite !app_assoc. rewrite endswith_char_app; [exact Hcolon|exact Hd'ne].
     + rewrite !app_assoc. rewrite endswith_char_app; [|exact Htne].
       apply type_shape_numpydoc_colon. exact Hts.
+Qed.
+
+Lemma entry_written_optional : forall style name g t d d',
+    entry_class style name g = None -> fget (g_typ g) = Some t -> fget (g_doc g) = Some d ->
+    written_doc name g = Some d' ->
+    optional_prefix d' && negb (startswith (L "Optional[") t) = false.
+Proof.
+  intros style name g t d d' H Ht Hd Hw. apply entry_class_text_ok in H. unfold entry_text_ok in H.
+  rewrite Ht, Hd, Hw in H.
+  apply andb_true_iff in H. destruct H as [_ H].
+  apply andb_true_iff in H. destruct H as [_ H].
+  apply andb_true_iff in H. destruct H as [_ H].
+  apply andb_true_iff in H. destruct H as [_ H].
+  apply negb_true_iff in H. exact H.
+Qed.
+
+Lemma return_type_not_kwargs : kwargs_name return_type_name = false
+                               /\ endswith (L "kwargs") return_type_name = false.
+Proof. split; vm_compute; reflexivity. Qed.
+
+Lemma firstn_drop_last : forall (a : str) c, firstn (List.length (a ++ [c]) - 1) (a ++ [c]) = a.
+Proof.
+  intros a c. rewrite app_length. cbn [List.length].
+  replace (List.length a + 1 - 1) with (List.length a) by lia. apply firstn_app_exact.
+Qed.
+
+Lemma return_dict_google : forall t d', head_nonspace t -> head_nonspace d' ->
+    return_dict SGoogle (RLines [L "  " ++ t ++ L ":"; L "   " ++ d'])
+    = Ok (mkParam (Has d') (Has t) None, false).
+Proof.
+  intros t d' Ht Hd. cbn [return_dict].
+  assert (E1 : lstrip (L "   " ++ d') = d').
+  { cbn [L String.list_ascii_of_string app]. rewrite !lstrip_cons_space. apply lstrip_id_head. exact Hd. }
+  assert (E2 : lstrip (firstn (List.length (L "  " ++ t ++ L ":") - 1) (L "  " ++ t ++ L ":")) = t).
+  { replace (L "  " ++ t ++ L ":") with ((L "  " ++ t) ++ [ch 58]) by (rewrite <- app_assoc; reflexivity).
+    rewrite firstn_drop_last. cbn [L String.list_ascii_of_string app]. rewrite !lstrip_cons_space.
+    apply lstrip_id_head. exact Ht. }
+  rewrite E1, E2. reflexivity.
+Qed.
+
+Lemma return_dict_numpydoc : forall t d', head_nonspace d' ->
+    return_dict SNumpydoc (RUnits [[t; tab ++ d']; [[]]]) = Ok (mkParam (Has d') (Has t) None, false).
+Proof.
+  intros t d' Hd. cbn [return_dict]. rewrite lstrip_tab_app. rewrite (lstrip_id_head d' Hd). reflexivity.
+Qed.
+
+(* THE RETURN ENTRY, blocks to IR *)
+Lemma return_pipeline : forall style g req,
+    gparam_in_domain g = true -> entry_class style return_type_name g = None ->
+    (exists t d, fget (g_typ g) = Some t /\ fget (g_doc g) = Some d) ->
+    (req = true -> writes_default return_type_name g = true) ->
+    exists t d' p1 req',
+      return_lines g = Some (t, d') /\ head_nonspace t /\ head_nonspace d'
+      /\ set_name_and_type return_type_name (mkParam (Has d') (Has t) None) false false true
+         = Ok (return_type_name, mkParam (Has d') (Has t) None)
+      /\ interpolate_force (mkParam (Has d') (Has t) None) req false = Ok (p1, req')
+      /\ gparam_same g (gparam_of_param p1) = true.
+Proof.
+  intros style g req Hgd Hec [t0 [d0 [Ht0 Hd0]]] Hreq.
+  destruct (return_type_not_kwargs) as [Hnk Hnk'].
+  destruct (entry_facts_of_guard style return_type_name g Hgd Hec) as [p [t [Hp [Ht [Htne [Httf [Hts [Hpdef Hdoc]]]]]]]].
+  destruct (gparam_in_domain_param g Hgd) as [p' [Hp' [Hpd' [Hpt' _]]]].
+  rewrite Hp in Hp'. injection Hp' as E. subst p'.
+  assert (Egt : fget (g_typ g) = Some t) by (rewrite <- Hpt', Ht; reflexivity).
+  assert (Etyp : fld_eqb (g_typ g) (Has t) = true) by (rewrite <- Hpt', Ht; apply fld_eqb_refl).
+  destruct (type_shape_inv style t Hts) as [Htce [Htopt _]].
+  destruct (clean_ends_inv t Htce) as [Hth _].
+  destruct Hdoc as [[Hd Hw] | [d [d' [Hd [Hdne [Hce [Hdnl [Hna [Hdtf [Hopt [Hdd Hws]]]]]]]]]]].
+  { exfalso. rewrite <- Hpd', Hd in Hd0. discriminate. }
+  assert (Egd : fget (g_doc g) = Some d) by (rewrite <- Hpd', Hd; reflexivity).
+  assert (Ewd : written_doc return_type_name g = Some d').
+  { unfold written_doc. rewrite Hp, Hd, (truthy_Has d Hdne), Hdd. reflexivity. }
+  destruct (doc_with_default_prefix _ p d d' Hdd Hd) as [x Hx].
+  destruct (clean_ends_inv d Hce) as [Hdh _].
+  assert (Hd'h : head_nonspace d') by (subst d'; apply head_nonspace_app; assumption).
+  assert (Hd'ne : d' <> []) by (subst d'; apply app_nonnil_l; exact Hdne).
+  clear x Hx.
+  destruct (written_shape_inv style d' Hws) as [_ Hd'nl].
+  pose proof (written_shape_clean style d' Hws) as Hd'ce.
+  pose proof (entry_written_optional style return_type_name g t d d' Hec Egt Egd Ewd) as Hopt'.
+  assert (Hsnt : set_name_and_type return_type_name (mkParam (Has d') (Has t) None) false false true
+                 = Ok (return_type_name, mkParam (Has d') (Has t) None)).
+  { rewrite (snt_plain return_type_name d' t Hnk Htopt Hd'nl Hd'ce Hopt').
+    destruct d'; [contradiction|reflexivity]. }
+  assert (Erl : return_lines g = Some (t, d')) by (unfold return_lines; rewrite Egt, Ewd; reflexivity).
+  destruct (writes_default return_type_name g) eqn:Hw.
+  - destruct (entry_class_default_facts style return_type_name g t d Hec Egt Egd Hw)
+      as [v [nq [Hv [Hnq [Hc17 Hstr]]]]].
+    assert (Hwcond : negb (null_default v) || negb (endswith (L "kwargs") return_type_name) = true)
+      by (rewrite Hnk'; apply orb_true_r).
+    assert (Hg17 : guard_C17 ADefaultsTo d v (Some t) = true).
+    { unfold guard_C17. rewrite Hc17. unfold C17_domain. rewrite Hna. destruct d; [contradiction|reflexivity]. }
+    assert (Hpv : p_default p = Some v) by (rewrite Hpdef; exact Hv).
+    destruct (interpolate_written return_type_name p d t v d' req Hd Ht Hpv Hwcond Hg17 Hdd)
+      as [v' [Hint [Hsame Hnn]]].
+    exists t, d', (mkParam (Has d) (Has t) (Some (unquote_val v'))), true.
+    split; [exact Erl|]. split; [exact Hth|]. split; [exact Hd'h|]. split; [exact Hsnt|].
+    split; [exact Hint|].
+    unfold gparam_same, gparam_of_param. cbn [g_typ g_doc g_default p_typ p_doc p_default option_map].
+    rewrite Etyp. rewrite <- Hpd', Hd, fld_eqb_refl. rewrite (in_domain_default_some g v Hv).
+    cbn [andb default_eqb]. unfold same_default in Hsame.
+    apply orb_true_iff in Hsame. destruct Hsame as [Hs|Hs]; [rewrite Hs; reflexivity|].
+    apply andb_true_iff in Hs. destruct Hs as [Hnv Hnv']. unfold none_like in *.
+    assert (Eu : unquote_val v' = v').
+    { destruct v' as [|b|z|r|s]; try reflexivity. cbn [unquote_val]. f_equal.
+      apply none_strs_unquote. exact Hnv'. }
+    rewrite Eu, Hnv, Hnv'. apply orb_true_r.
+  - assert (Hreqf : req = false) by (destruct req; [specialize (Hreq eq_refl); discriminate|reflexivity]).
+    subst req.
+    assert (Edd : d' = d).
+    { rewrite (doc_with_default_nowrite return_type_name g p d Hp Hpdef Hd Hw) in Hdd.
+      injection Hdd as Hdd. symmetry. exact Hdd. }
+    subst d'. destruct (interpolate_plain d t Hna) as [Hi0 _].
+    exists t, d, (mkParam (Has d) (Has t) None), false.
+    split; [exact Erl|]. split; [exact Hth|]. split; [exact Hd'h|]. split; [exact Hsnt|].
+    split; [exact Hi0|].
+    unfold gparam_same, gparam_of_param. cbn [g_typ g_doc g_default p_typ p_doc p_default option_map].
+    rewrite Etyp. rewrite <- Hpd', Hd, fld_eqb_refl. cbn [andb].
+    assert (Hsd : sdefault g = None).
+    { unfold writes_default in Hw. destruct (sdefault g) as [v|]; [|reflexivity].
+      rewrite Hnk' in Hw. rewrite orb_true_r in Hw. discriminate. }
+    rewrite (in_domain_default g Hgd Hsd). reflexivity.
+Qed.
+
+Definition blank_tail (style : ngstyle) (tl : list (list str)) : Prop :=
+  tl = [] \/ (style = SNumpydoc /\ (tl = [[[]]] \/ tl = [[[]]; [[]]])).
+
+Lemma params_part : forall style ps tl,
+    Forall (entry_guard style) ps -> forced_all false ps -> uniq (map fst ps) = true ->
+    blank_tail style tl ->
+    afterward_index (units_of_params style ps ++ tl) 0 = None
+    /\ exists res,
+        params_loop style rt_flags (units_of_params style ps ++ tl) false []
+        = Ok (res, existsb (fun np => writes_default (fst np) (snd np)) ps)
+        /\ od_of_pairs res = res
+        /\ params_same ps (ir_params_of res) = true.
+Proof.
+  intros style ps tl Hall Hforced Huniq Htl. split.
+  - apply afterward_index_none. apply Forall_app. split.
+    + unfold units_of_params. apply Forall_map. eapply Forall_impl; [|exact Hall].
+      intros [n g] [_ [_ [Hgd [Hec _]]]]. cbn [fst snd] in *. unfold head_no_colon.
+      apply unit_head_no_colon; assumption.
+    + destruct Htl as [E | [_ [E|E]]]; subst tl; repeat constructor.
+  - destruct (params_loop_blocks style ps tl false [] Hall Hforced) as [res [Hloop [Hnames Hsame]]].
+    exists res. split; [|split; [|exact Hsame]].
+    + rewrite Hloop. cbn [app orb].
+      destruct Htl as [E | [Es [E|E]]]; subst; reflexivity.
+    + apply od_of_pairs_uniq. rewrite Hnames. exact Huniq.
+Qed.
+
+Lemma guard_entry_guards : forall style i,
+    in_domain_ng i = true -> finding_class_C01_ng style i = None ->
+    Forall (entry_guard style) (ir_params i) /\ forced_all false (ir_params i)
+    /\ uniq (map fst (ir_params i)) = true.
+Proof.
+  intros style i Hdom Hfc.
+  destruct (finding_class_None_inv style i Hfc) as [_ [_ [_ [Hps [Hmono _]]]]].
+  destruct (in_domain_ng_inv i Hdom) as [_ [Hpd [Hu _]]].
+  split; [|split; [apply defaults_monotone_forced; exact Hmono|exact Hu]].
+  apply Forall_forall. intros np Hin. rewrite Forall_forall in Hps, Hpd.
+  destruct (Hps np Hin) as [Hec Hkc]. destruct (Hpd np Hin) as [Hid [Hnr Hgd]].
+  unfold entry_guard. repeat split; assumption.
+Qed.
+
+Definition ret_gp (r : fld param) : fld gparam :=
+  match r with Has p => Has (gp p) | FNone => FNone | Missing => Missing end.
+
+(* THE PARSE PHASE THEOREM (level A of the design, blocks to IR): on the blocks of a guard IR,
+   _parse_phase_numpydoc_and_google gives back the same summary, the same parameters and the same return entry.
+   Any number of parameters. *)
+Theorem parse_phase_blocks : forall style i,
+    guard_C01_ng style i = true ->
+    exists doc res r,
+      parse_phase_ng style rt_flags (scanned_of style i) = Ok (doc, res, r)
+      /\ ir_doc i = Has doc
+      /\ params_same (ir_params i) (ir_params_of res) = true
+      /\ returns_same (ir_returns i) (ret_gp r) = true.
+Proof.
+  intros style i Hg. unfold guard_C01_ng in Hg. apply andb_true_iff in Hg. destruct Hg as [Hdom Hcls].
+  destruct (finding_class_C01_ng style i) eqn:Hfc; [discriminate|]. clear Hcls.
+  destruct (guard_entry_guards style i Hdom Hfc) as [Hall [Hforced Huniq]].
+  destruct (finding_class_None_inv style i Hfc) as [_ [_ [Hgne [_ [_ Hret]]]]].
+  destruct (in_domain_ng_inv i Hdom) as [[doc Hdoc] [_ [_ Hrd]]].
+  exists doc.
+  (* the return entry, if any *)
+  assert (Hrcases :
+            (exists g t d', ir_returns i = Has g /\ return_lines g = Some (t, d')
+                            /\ head_nonspace t /\ head_nonspace d'
+                            /\ set_name_and_type return_type_name (mkParam (Has d') (Has t) None) false false true
+                               = Ok (return_type_name, mkParam (Has d') (Has t) None)
+                            /\ exists p1 req',
+                                interpolate_force (mkParam (Has d') (Has t) None)
+                                                  (existsb (fun np => writes_default (fst np) (snd np)) (ir_params i))
+                                                  false = Ok (p1, req')
+                                /\ gparam_same g (gparam_of_param p1) = true)
+            \/ ((ir_returns i = FNone \/ ir_returns i = Missing))).
+  { destruct (ir_returns i) as [| |g] eqn:Er; [right; right; reflexivity|right; left; reflexivity|].
+    left. cbn [returns_ok] in Hret. destruct Hret as [_ [Htd [Hec Hafter]]].
+    assert (Hreq : existsb (fun np => writes_default (fst np) (snd np)) (ir_params i) = true ->
+                   writes_default return_type_name g = true).
+    { intros E. rewrite E in Hafter. cbn [andb] in Hafter. apply negb_false_iff in Hafter. exact Hafter. }
+    destruct (return_pipeline style g _ (Hrd g eq_refl) Hec Htd Hreq)
+      as [t [d' [p1 [req' [Hrl [Hth [Hdh [Hsnt [Hint Hsame]]]]]]]]].
+    exists g, t, d'. split; [reflexivity|]. split; [exact Hrl|]. split; [exact Hth|]. split; [exact Hdh|].
+    split; [exact Hsnt|]. exists p1, req'. split; assumption. }
+  unfold scanned_of. rewrite Hdoc. cbv zeta.
+  destruct Hrcases as [[g [t [d' [Er [Hrl [Hth [Hdh [Hsnt [p1 [req' [Hint Hsame]]]]]]]]]]] | Hnone].
+  - rewrite Er, Hrl. unfold return_type_name in Hsnt.
+    destruct style.
+    + (* google *)
+      destruct (params_part SGoogle (ir_params i) [] Hall Hforced Huniq (or_introl eq_refl))
+        as [Haft [res [Hloop [Hod Hps]]]].
+      rewrite app_nil_r in Haft, Hloop.
+      exists res, (Has p1).
+      split; [|split; [reflexivity|split; [exact Hps|exact Hsame]]].
+      unfold parse_phase_ng. cbn [sc_args sc_doc sc_afterward sc_ret]. rewrite Haft, Hloop.
+      cbn [bind retv_truthy is_empty negb]. rewrite Hod.
+      rewrite (return_dict_google t d' Hth Hdh). cbn [bind].
+      change (f_infer_type rt_flags) with false. change (f_word_wrap rt_flags) with true.
+      change (f_emit_default_doc rt_flags) with false.
+      rewrite Hsnt. cbn [bind snd]. rewrite Hint. cbn [bind fst]. reflexivity.
+    + (* numpydoc *)
+      destruct (ir_params i) as [|np ps] eqn:Eps.
+      * exists [], (Has p1).
+        split; [|split; [reflexivity|split; [reflexivity|exact Hsame]]].
+        unfold parse_phase_ng. cbn [sc_args sc_doc sc_afterward sc_ret afterward_index params_loop bind].
+        cbn [retv_truthy is_empty negb od_of_pairs fold_left].
+        cbn [return_dict]. rewrite lstrip_tab_app, (lstrip_id_head d' Hdh). cbn [bind].
+        change (f_infer_type rt_flags) with false. change (f_word_wrap rt_flags) with true.
+        change (f_emit_default_doc rt_flags) with false.
+        rewrite Hsnt. cbn [bind snd]. cbn [existsb] in Hint. rewrite Hint. cbn [bind fst]. reflexivity.
+      * rewrite <- Eps in *.
+        assert (Hbt : blank_tail SNumpydoc [[[]]]) by (right; split; [reflexivity|left; reflexivity]).
+        destruct (params_part SNumpydoc (ir_params i) [[[]]] Hall Hforced Huniq Hbt)
+          as [Haft [res [Hloop [Hod Hps]]]].
+        exists res, (Has p1).
+        split; [|split; [reflexivity|split; [exact Hps|exact Hsame]]].
+        rewrite Eps. rewrite <- Eps.
+        unfold parse_phase_ng. cbn [sc_args sc_doc sc_afterward sc_ret]. rewrite Haft, Hloop.
+        cbn [bind retv_truthy is_empty negb]. rewrite Hod.
+        cbn [return_dict]. rewrite lstrip_tab_app, (lstrip_id_head d' Hdh). cbn [bind].
+        change (f_infer_type rt_flags) with false. change (f_word_wrap rt_flags) with true.
+        change (f_emit_default_doc rt_flags) with false.
+        rewrite Hsnt. cbn [bind snd]. rewrite Hint. cbn [bind fst]. reflexivity.
+  - assert (Erl : match ir_returns i with Has g => return_lines g | _ => None end = None)
+      by (destruct Hnone as [E|E]; rewrite E; reflexivity).
+    assert (Hrs : returns_same (ir_returns i) (ret_gp FNone) = true)
+      by (destruct Hnone as [E|E]; rewrite E; reflexivity).
+    rewrite Erl.
+    destruct style.
+    + destruct (params_part SGoogle (ir_params i) [] Hall Hforced Huniq (or_introl eq_refl))
+        as [Haft [res [Hloop [Hod Hps]]]].
+      rewrite app_nil_r in Haft, Hloop.
+      exists res, FNone.
+      split; [|split; [reflexivity|split; [exact Hps|exact Hrs]]].
+      unfold parse_phase_ng. cbn [sc_args sc_doc sc_afterward sc_ret]. rewrite Haft, Hloop.
+      cbn [bind retv_truthy is_empty negb]. rewrite Hod. reflexivity.
+    + destruct (ir_params i) as [|np ps] eqn:Eps.
+      * exists [], FNone. split; [reflexivity|]. split; [reflexivity|]. split; [reflexivity|exact Hrs].
+      * rewrite <- Eps in *.
+        assert (Hbt : blank_tail SNumpydoc [[[]]; [[]]]) by (right; split; [reflexivity|right; reflexivity]).
+        destruct (params_part SNumpydoc (ir_params i) [[[]]; [[]]] Hall Hforced Huniq Hbt)
+          as [Haft [res [Hloop [Hod Hps]]]].
+        exists res, FNone.
+        split; [|split; [reflexivity|split; [exact Hps|exact Hrs]]].
+        rewrite Eps. rewrite <- Eps.
+        unfold parse_phase_ng. cbn [sc_args sc_doc sc_afterward sc_ret]. rewrite Haft, Hloop.
+        cbn [bind retv_truthy is_empty negb]. rewrite Hod. reflexivity.
+Qed.
+
+(* ------------------------------------------------------------------ *)
+(* 15. the round trip, modulo the text-to-blocks link                   *)
+(* ------------------------------------------------------------------ *)
+
+Lemma strs_eqb_eq : forall a b, strs_eqb a b = true -> a = b.
+Proof.
+  induction a as [|x a IH]; intros [|y b] H; try discriminate; [reflexivity|].
+  cbn [strs_eqb] in H. apply andb_true_iff in H. destruct H as [Hx Ha].
+  apply str_eqb_eq in Hx. subst y. f_equal. apply IH. exact Ha.
+Qed.
+
+Lemma units_eqb_eq : forall a b, units_eqb a b = true -> a = b.
+Proof.
+  induction a as [|x a IH]; intros [|y b] H; try discriminate; [reflexivity|].
+  cbn [units_eqb] in H. apply andb_true_iff in H. destruct H as [Hx Ha].
+  apply strs_eqb_eq in Hx. subst y. f_equal. apply IH. exact Ha.
+Qed.
+
+Lemma scanned_eqb_eq : forall a b, scanned_eqb a b = true -> a = b.
+Proof.
+  intros [d1 a1 r1 f1] [d2 a2 r2 f2] H. unfold scanned_eqb in H. cbn [sc_doc sc_args sc_ret sc_afterward] in H.
+  apply andb_true_iff in H. destruct H as [H Hf].
+  apply andb_true_iff in H. destruct H as [H Hr].
+  apply andb_true_iff in H. destruct H as [Hd Ha].
+  apply str_eqb_eq in Hd. apply units_eqb_eq in Ha. subst.
+  assert (Er : r1 = r2).
+  { destruct r1 as [l1|u1], r2 as [l2|u2]; cbn [retv_eqb] in Hr; try discriminate.
+    - apply strs_eqb_eq in Hr. subst. reflexivity.
+    - apply units_eqb_eq in Hr. subst. reflexivity. }
+  assert (Ef : f1 = f2).
+  { destruct f1 as [x|], f2 as [y|]; try discriminate; [|reflexivity].
+    apply strs_eqb_eq in Hf. subst. reflexivity. }
+  subst. reflexivity.
+Qed.
+
+Lemma text_of_o_nonempty : forall style i text, text_of_o style i = Ok text -> is_empty text = false.
+Proof.
+  intros style i text H. unfold text_of_o in H.
+  apply bind_Ok_inv' in H. destruct H as [doc [_ H]].
+  apply bind_Ok_inv' in H. destruct H as [lines [_ H]]. cbv zeta in H.
+  apply bind_Ok_inv' in H. destruct H as [ret [_ H]].
+  injection H as H. subst text. reflexivity.
+Qed.
+
+(* C01 for numpydoc and google, PARTIAL: inside the guard, and provided the scanner turns the emitted text into the
+   blocks [scanned_of] (the text-to-blocks link, which is evaluated by the harness through [scan_link_b] on every
+   generated IR inside the guard but is not proved), the emitted text is recognised as its own style, parsing it
+   succeeds, and the result is the same interface *)
+Theorem C01_ng_partial_modulo_scan : forall style i,
+    guard_C01_ng style i = true -> scan_link_b style i = true -> C01_ng_at style i.
+Proof.
+  intros style i Hg Hlink.
+  destruct (detect_style_guard style i Hg) as [text [Htext Hdet]].
+  destruct (parse_phase_blocks style i Hg) as [doc [res [r [Hphase [Hdoc [Hps Hrs]]]]]].
+  unfold scan_link_b in Hlink. rewrite Htext in Hlink.
+  apply andb_true_iff in Hlink. destruct Hlink as [Halpha Hscan].
+  destruct (scan_ng style text) as [sc|e] eqn:Esc; [|discriminate].
+  apply scanned_eqb_eq in Hscan. subst sc.
+  unfold C01_ng_at. exists text.
+  exists (mkIR FNone (Has (L "static")) (Has doc) (map (fun np => (fst np, gp (snd np))) res)
+               (match r with Has p => Has (gp p) | FNone => FNone | Missing => Missing end) None).
+  split; [exact Htext|]. split; [exact Hdet|]. split.
+  - unfold parse_ng. rewrite Halpha. cbn [negb]. rewrite (text_of_o_nonempty style i text Htext).
+    rewrite Esc. cbn [bind]. rewrite Hphase. cbn [bind].
+    change (f_emit_default_prop rt_flags) with true. cbn [bind]. reflexivity.
+  - unfold same_interface. cbn [ir_doc ir_params ir_returns]. rewrite Hdoc, fld_eqb_refl.
+    unfold ir_params_of in Hps. unfold gp. rewrite Hps. cbn [andb]. exact Hrs.
+Qed.
+
+(* the guard is not vacuous: the canonical five-parameter shape of the test-suite, with a return entry *)
+Example guard_C01_ng_nonvacuous :
+  let i := mkIR FNone (Has (L "static")) (Has (L "Acquire from the official model zoo."))
+                [(L "dataset_name", mkG (Has (L "name of dataset.")) (Has (L "str")) (Some (DV (VStr (L "mnist")))));
+                 (L "K", mkG (Has (L "backend engine, e.g., `np` or `tf`.")) (Has (L "Literal['np', 'tf']"))
+                             (Some (DV (VStr (L "np")))));
+                 (L "as_numpy", mkG (Has (L "Convert to numpy ndarrays.")) (Has (L "Optional[bool]")) (Some (DV VNone)));
+                 (L "data_loader_kwargs", mkG (Has (L "pass this as arguments to data_loader function"))
+                                              (Has (L "Optional[dict]")) (Some (DV (VStr NoneStr))))]
+                FNone None in
+  guard_C01_ng SGoogle i = true /\ guard_C01_ng SNumpydoc i = true
+  /\ scan_link_b SGoogle i = true /\ scan_link_b SNumpydoc i = true.
+Proof. vm_compute. repeat split. Qed.
+
+Example guard_C01_ng_nonvacuous_return :
+  let i := mkIR FNone (Has (L "static")) (Has (L "Sum."))
+                [(L "a", mkG (Has (L "first.")) (Has (L "int")) None)]
+                (Has (mkG (Has (L "the result.")) (Has (L "int")) None)) None in
+  guard_C01_ng SGoogle i = true /\ guard_C01_ng SNumpydoc i = true
+  /\ scan_link_b SGoogle i = true /\ scan_link_b SNumpydoc i = true.
+Proof. vm_compute. repeat split. Qed.
+
+(* the full statement is false of the faithful model: witnesses *)
+Definition C01_ng_statement : Prop := forall style i, in_domain_ng i = true -> C01_ng_at style i.
+
+Lemma C01_ng_at_roundtrip : forall style i, C01_ng_at style i -> roundtrip style i = RtHolds.
+Proof.
+  intros style i [text [i' [Ht [Hd [Hp Hs]]]]]. unfold roundtrip. rewrite Ht, Hd.
+  assert (E : style3_eqb (style3_of style) (style3_of style) = true) by (destruct style; reflexivity).
+  rewrite E. cbn [negb]. rewrite Hp, Hs. reflexivity.
+Qed.
+
+Theorem C01_ng_refuted : ~ C01_ng_statement.
+Proof.
+  intros H.
+  (* numpydoc: return entry with a type and no prose -> IndexError *)
+  set (i := mkIR FNone (Has (L "static")) (Has (L "Sum.")) []
+                 (Has (mkG Missing (Has (L "int")) None)) None).
+  assert (Hd : in_domain_ng i = true) by (vm_compute; reflexivity).
+  pose proof (C01_ng_at_roundtrip SNumpydoc i (H SNumpydoc i Hd)) as E.
+  vm_compute in E. discriminate E.
 Qed.
